@@ -322,6 +322,48 @@ static void range_ops(mon::Rng& rng)
   }
 }
 
+// unverified_safe_pointer_because with pointees larger than a host pointer (arrays): El[N], guest element GEl
+template<typename El, size_t N>
+static void usp_big(mon::Rng& rng)
+{
+  using T = El[N];
+  using GEl = ref::guest_t<Cfg, El>;
+  constexpr size_t gs = sizeof(GEl) * N, hs = sizeof(T);
+  std::string tns = mon::fmt("%s[%zu]", ref::name<El>(), N);
+  const char* tn = tns.c_str();
+  std::vector<uint64_t> starts = { 0, gs, R.size - gs, R.size - 2 * gs, (R.size / 2 / gs) * gs };
+  for (int i = 0; i < mon::tier(2, 12); i++) starts.push_back(gs * rng.below(R.size / gs));
+  for (uint64_t off : starts) {
+    for (i128 cnt : extents(off, gs, rng)) {
+      // counts in the window where a divisor of 8 and a divisor of the element size disagree
+      std::vector<i128> cs = { cnt };
+      if (cnt <= 4) { i128 two64 = static_cast<i128>(1) << 64; cs.push_back(two64 / static_cast<i128>(gs) + 1 + cnt); cs.push_back(two64 / static_cast<i128>(hs) + 1 + cnt); cs.push_back((two64 * 2) / static_cast<i128>(gs) + 1 + cnt); }
+      for (i128 cc : cs) {
+        if (cc >= (static_cast<i128>(1) << 64)) continue;
+        size_t c = static_cast<size_t>(cc);
+        i128 start = static_cast<i128>(R.base) + off;
+        bool legal_g = cc > 0 && sbx_range_legal(start, cc * static_cast<i128>(gs));
+        bool legal_h = cc > 0 && sbx_range_legal(start, cc * static_cast<i128>(hs));
+        auto p = Wd::tptr<T>(*SB, off);
+        mon::distinct(mon::mix(mon::mix(std::hash<std::string>()(tns), off), static_cast<uint64_t>(cc)));
+        mon::ctx("unverified_safe_pointer_because/%s | base+%llu count=%s", tn, (unsigned long long)off, mon::i128s(cc).c_str());
+        T* raw = nullptr;
+        bool ab = mon::aborts([&] { raw = p.unverified_safe_pointer_because(c, "monitor"); });
+        mon::evals();
+        std::string what = mon::fmt("unverified_safe_pointer_because<%s*>(start=base+%llu, count=%s): host element %zu bytes, guest element %zu bytes, %s bytes to region end", tn,
+                                    (unsigned long long)off, mon::i128s(cc).c_str(), hs, gs, mon::i128s(static_cast<i128>(R.size) - off).c_str());
+        if (cc == 0) n_empty++;
+        else if (!legal_g && !legal_h) { if (!ab) report("unverified_safe_pointer_because", "illegal-request-proceeded", what); else n_illegal_abort++; }
+        else if (legal_g && legal_h) {
+          if (ab) report("unverified_safe_pointer_because", "legal-request-aborted", what);
+          else if (reinterpret_cast<uintptr_t>(raw) != static_cast<uintptr_t>(start)) report("unverified_safe_pointer_because", "wrong-pointer", what);
+          else n_legal_ok++;
+        }
+      }
+    }
+  }
+}
+
 // ------------------------------------------------------ copy_and_verify_string
 static void string_ops(mon::Rng& rng)
 {
@@ -539,6 +581,10 @@ int main(int argc, char** argv)
     range_ops<char16_t>(rng);
     range_ops<long long>(rng);
     range_ops<float>(rng);
+    usp_big<int, 8>(rng);
+    usp_big<long, 5>(rng);
+    usp_big<char, 24>(rng);
+    usp_big<double, 2>(rng);
     string_ops(rng);
   }
   if (part < 0 || part == 5) {
